@@ -3,11 +3,12 @@ EXTENDS Lifecycle, Json, IOUtils
 Valid(k, pe, b, st) == /\ (k = "thread" => b # "frozen")
                        /\ (b = "linger" => (k # "thread" /\ pe = "F"))
                        /\ (b = "slowres" => (k = "remote" /\ pe = "T"))
+                       /\ (b = "unreb" => pe = "F")
                        /\ (b = "idle" => pe = "T")
                        /\ (st # "run" => b = "coop")
 AllCases == {[id |-> "free", kind |-> k, pers |-> pe, beh |-> b, start |-> st, ops |-> <<>>] :
                k \in {"thread", "process", "remote"}, pe \in {"T", "F"},
-               b \in {"coop", "swallow", "sleep", "frozen", "idle", "linger", "slowres"}, st \in {"run", "dead", "notrun"}}
+               b \in {"coop", "swallow", "sleep", "frozen", "idle", "linger", "slowres", "unreb"}, st \in {"run", "dead", "notrun"}}
 FreeCases == {cs \in AllCases : Valid(cs.kind, cs.pers, cs.beh, cs.start)}
 FreeProcess == {cs \in FreeCases : cs.kind = "process"}
 FreeRemote  == {cs \in FreeCases : cs.kind = "remote"}
